@@ -196,6 +196,8 @@ fn check(rep: &mut Report, b: &Build, cls: &str) {
 const DECODABLE: &[u8] = b"15RTgt0PAso;90TKcjM8h6g208CQ";
 
 pub fn run(ctx: &Ctx, rep: &mut Report) {
+    // injected delays: fragments of one group fed seconds apart (own threads, joined at the end)
+    let pauses = start_pause_probes(ctx);
     let mut r = ctx.rng("c07");
     let mut item = 0u64;
     // talkers: all 65 536 byte pairs x {VDM, VDO, other}
@@ -383,6 +385,7 @@ pub fn run(ctx: &Ctx, rep: &mut Report) {
         check(rep, &b, "random");
     }
     rep.require("accepted_lines_checked");
+    finish_pause_probes(rep, PID, pauses);
     rep.sample(3, || {
         let mut b = Build::simple(3, 3, Some(7), b"\xe9", b"any;bytes{}", 5);
         b.talker = *b"BS";
